@@ -55,12 +55,12 @@ theorem div32_digit (y1 y0 u1 u0 : Nat) (hy1 : 32768 ≤ y1) (hy1' : y1 < 65536)
     ∃ q', corrLoop loopFuel (u1 / y1) (u1 % y1) y1 y0 u0 = some q' ∧
       q' * (y1 * 65536 + y0) ≤ u1 * 65536 + u0 ∧ u1 * 65536 + u0 < (q' + 1) * (y1 * 65536 + y0) := by
   have hpos : 0 < y1 := by omega
+  have h1 : u1 < 65538 * y1 := by omega
   have hr : u1 % y1 < y1 := Nat.mod_lt _ hpos
   have hdm : u1 / y1 * y1 + u1 % y1 = u1 := by rw [Nat.mul_comm]; exact Nat.div_add_mod u1 y1
   -- the estimate is at most 2^16 + 1 and not below the true digit
   have hq : u1 / y1 ≤ 65537 := by
-    have h1 : u1 < y1 * 65538 := by omega
-    have := (Nat.div_lt_iff_lt_mul hpos).mpr (by rw [Nat.mul_comm] at h1; exact h1)
+    have := (Nat.div_lt_iff_lt_mul hpos).mpr h1
     omega
   have hup : u1 * 65536 + u0 < (u1 / y1 + 1) * (y1 * 65536 + y0) := by
     have h2 : u1 < (u1 / y1 + 1) * y1 := by rw [Nat.add_mul]; omega
